@@ -22,6 +22,29 @@ NOTES = {
             "C17: conversions.py::semi_a2orbital_motion::inverse_of / paths_agree and the compiled twin (multi-path functions added)"),
  "C17a_4": ("conversions_x.pyx source: cf_orbital_motion2semi_a loses the parentheses around n*n (cannot be compiled here)",
             "C17: conversions_x.pyx::cf_orbital_motion2semi_a::ensures:kepler, ::twin, inverse pairs (source-level, no-failing-input-found: the binary is stale)"),
+
+ "C10a_1": ("calculate_terms: |n_coeff| frequency signature applied to every mode instead of m = 0 only; modes (+c, m) and (-c, m) share -Im k; needs non-zero obliquity or truncation >= e^6 and a frequency-dependent rheology",
+            "C10: calculate_terms::ensures:frequency_of_signature, collapse_modes::ensures:grouping_invariance (caught on the first run)"),
+ "C10a_2": ("collapse_modes: `neg_imk_potential = neg_imk; neg_imk_potential /= M` - in place through an alias; only with ndarray frequencies; heating too small by the host mass",
+            "C10: collapse_modes::alias#0.* (engine: alias-safety obligation for in-place updates, added after this change was first missed; native array-vs-scalar replay)"),
+ "C10a_3": ("quick_tidal_dissipation: CTL default time lag 1/(Q spin) instead of 1/(Q n); negative heating for retrograde spin",
+            "C10: quick_tidal_dissipation::ctl_site_pre / ctl_site_default (call-site contract added after this change was first missed)"),
+ "C14a_1": ("nsr_med_eccen_no_obliquity: static P20 term adds the first instead of the second theta-derivative to U_theta_theta; use_static=True only",
+            "C14: ::ensures:derivative_consistency / laplace / zero_obliquity_limit[...static=1][U_theta_theta] (first run)"),
+ "C14a_2": ("nsr_med_eccen_gen_obliquity: sign of the e^3 sin^3 cos coefficient of mode o-3n", "C14: nsr_modes_med_eccen_gen_obliquity::ensures:modal_sum[...] (first run)"),
+ "C14a_3": ("nsr_modes_low_eccen_gen_obliquity: longitude multiplier of mode o+2n 1 -> 2 (non-harmonic mode)", "C14: ::ensures:laplace and low_vs_medium_eccentricity[o+2n] (first run)"),
+ "C16a_1": ("LayerBase.set_geometry: mass of the layer below instead of the mass below; needs >= 3 layers", "C16: LayerBase.set_geometry::ensures:mass_below[layers>=3] (first run; native chain replayer added)"),
+ "C16a_2": ("scale_from_world: setdefault('radius_inner') keeps the stale inner radius when an already scaled world is scaled again",
+            "C16: scale_from_world::ensures:lengths_scaled[layers=n;source_already_scaled] (first run undecided: dict.setdefault unsupported; second-generation source configs added)"),
+ "C16a_3": ("clean_world_config pops derived keys from the SOURCE layer dicts", "C16: clean_world_config::frame (first run undecided: pop on abstract dictionaries; now a logged write)"),
+ "C19a_1": ("isotope: `break` on a zero-concentration entry drops all later isotopes", "C19: isotope#step::no_early_exit, ::reference_value (first run: tool fault on `break` in a loop-body fragment; fragments now end in break/continue outcomes)"),
+ "C19a_2": ("convection: boundary layer set to MIN_THICKNESS for thinner layers; convective flux below conduction for L < 50 m", "C19: convection::ensures:at_least_conduction (first run)"),
+ "C19a_3": ("reference viscosity: overflow clamp gets the wrong sign; viscosity collapses for very cold material", "C19: reference::ensures:nonincreasing_in_T (first run)"),
+ "C19a_4": ("henning: merged exponent has the wrong sign inside the critical window; viscosity rises with melt fraction", "C19: henning::ensures:viscosity_nonincreasing_in_melt (first run)"),
+ "C15a_1": ("calculate_strain_stress: 2 y1 - l(l+1) y3 'factored' as l (y1 - (l+1) y3); wrong for l != 2", "C15: calculate_strain_stress::ensures:traction[0] (first run undecided; exact refutation modulo relations added)"),
+ "C15a_2": ("calculate_strain_stress: y4/shear guard tests Re(shear) < 1e-10; kills shear strain of strongly relaxed Maxwell layers",
+            "C15: ::ensures:traction[3|4]@path0 (first run: np.real unsupported + single-path contract; contract made multi-path, bound-aware exact sampler)"),
+ "C15a_3": ("calculate_volumetric_heating: in-place arithmetic on np.imag(stress), a view of the caller's array", "C15: calculate_volumetric_heating::frame#* (engine: ndarray object semantics - views, in-place updates, frame obligation on argument arrays - added after this change was first undecided)"),
 }
 for k, (needs, det) in NOTES.items():
     p = f"/verif/seeded/{k}/meta.json"
